@@ -203,10 +203,14 @@ func (n *Node) listen() error {
 			http.Error(w, "injected failure of "+action, http.StatusInternalServerError)
 			return
 		}
+		wasOpen := func() (o bool) {
+			defer func() { recover() }()
+			return n.S.Replica() != nil
+		}()
 		router.ServeHTTP(w, r)
 		if r.Method == "POST" {
 			n.fixDrainer()
-			if action == "open" {
+			if action == "open" && !wasOpen {
 				// the replica process's main goroutine marks a freshly opened replica that is
 				// not a clone "NA" (app/replica.go, after the first open of the process; in the
 				// product every open is the first one of a new process)
